@@ -22,7 +22,8 @@ MANIFEST = {
             "sizeof = sum of member sizes, offsets = running sums in declaration order, alignof = 1 for the header, every struct "
             "and every message, and every factory called with its first k arguments returns header {preamble,id,sizeof-8} ++ "
             "the arguments ++ the declared defaults (zero where none) of the remaining members through any depth. "
-            "Tie: on every run the real generated Protocol.h/<cls>.h/<cls>.cpp are abstracted by regex to the model's abstract "
+            "Tie: translator/layoutsrc.py regenerates Gen/LayoutSrc.v (header name/fields from kojentypes.MessageHeader, integer typedefs "
+            "of basetypes.h) and C12_source_constants re-proves that the model's constants are the source's; on every run the real generated Protocol.h/<cls>.h/<cls>.cpp are abstracted by regex to the model's abstract "
             "program and must equal emit(I) (declarations, packed attributes, parameter lists, default texts, return statements); "
             "a probe compiled with g++ against the real headers prints sizeof/alignof/offsetof and the bytes of every factory result "
             "(no / all / some arguments), which must equal both the extracted model and an independent Python struct packing.",
@@ -56,6 +57,7 @@ ASSUMPTIONS = [
 ]
 TRUSTED = [
     "Coq 8.16.1 kernel (coqc; coqchk in the thorough tier)", "axioms: none",
+    "translator/layoutsrc.py (ast of kojentypes.MessageHeader, regex over the GCC typedef block of basetypes.h)",
     "extraction: ExtrOcamlBasic + ExtrOcamlNativeString, OCaml 4.13",
     "harness/layoutgen.abstract_iface (real kojentypes objects -> model input) and abstract_generated (regex reading of the real "
     "generated headers -> abstract program); both fail closed",
